@@ -54,35 +54,44 @@ var protoFactory = frugal.NewFProtocolFactory(thrift.NewTBinaryProtocolFactoryCo
 
 // ---- a minimal processor: method "ping" replies with an empty result struct ----
 
-type pingFn struct{ calls *int64 }
+// The processor function is wired as generated code wires it: it embeds FBaseProcessorFunction
+// (which shares the processor's write mutex) and replies through SendReply.
+type pingFn struct {
+	*frugal.FBaseProcessorFunction
+	calls *int64
+}
+
+type emptyResult struct{}
+
+func (emptyResult) Write(ctx context.Context, p thrift.TProtocol) error {
+	if err := p.WriteStructBegin(ctx, "ping_result"); err != nil {
+		return err
+	}
+	if err := p.WriteFieldStop(ctx); err != nil {
+		return err
+	}
+	return p.WriteStructEnd(ctx)
+}
+func (emptyResult) Read(ctx context.Context, p thrift.TProtocol) error { return p.Skip(ctx, thrift.STRUCT) }
+func (emptyResult) String() string                                     { return "ping_result" }
 
 func (p *pingFn) Process(ctx frugal.FContext, in, out *frugal.FProtocol) error {
 	c := context.Background()
 	if err := in.Skip(c, thrift.STRUCT); err != nil {
-		return err
+		in.ReadMessageEnd(c)
+		return p.SendError(ctx, out, frugal.APPLICATION_EXCEPTION_PROTOCOL_ERROR, "ping", err.Error())
 	}
 	if err := in.ReadMessageEnd(c); err != nil {
 		return err
 	}
 	atomic.AddInt64(p.calls, 1)
-	if err := out.WriteResponseHeader(ctx); err != nil {
-		return err
-	}
-	if err := out.WriteMessageBegin(c, "ping", thrift.REPLY, 0); err != nil {
-		return err
-	}
-	out.WriteStructBegin(c, "ping_result")
-	out.WriteFieldStop(c)
-	out.WriteStructEnd(c)
-	out.WriteMessageEnd(c)
-	return out.Flush(c)
+	return p.SendReply(ctx, out, "ping", emptyResult{})
 }
-func (p *pingFn) AddMiddleware(frugal.ServiceMiddleware) {}
 
 func newProcessor() (frugal.FProcessor, *int64) {
 	var calls int64
 	bp := frugal.NewFBaseProcessor()
-	bp.AddToProcessorMap("ping", &pingFn{calls: &calls})
+	bp.AddToProcessorMap("ping", &pingFn{frugal.NewFBaseProcessorFunction(bp.GetWriteMutex(), nil), &calls})
 	return bp, &calls
 }
 
